@@ -217,6 +217,7 @@ class Builder:
             self.inst_objs[(k, inst["name"])] = io
         late = bool(m.get("late")) or style == "class"
         mult_late = {i["name"]: i["n"] for i in m["insts"] if i.get("kind") == "array" and i.get("via") == "mult_late"}
+        multiplied = set()
         mod = None
         if style == "proc":
             if m.get("bare"):
@@ -243,6 +244,12 @@ class Builder:
             running = {name: {} for name in insts}
             for step, (iname, pname, e, op) in enumerate(m["history"]):
                 io = insts[iname]
+                if op == "mult":
+                    insts[iname] = mult_late[iname] * io  # from here on the history addresses the array
+                    multiplied.add(iname)
+                    self.inst_objs[(k, iname)] = insts[iname]
+                    ctx["insts"] = insts
+                    continue
                 if op == "disconnect":
                     io.disconnect(pname)
                     running[iname].pop(pname, None)
@@ -280,6 +287,8 @@ class Builder:
         if self.mutate:
             self.mutate(self, k, "post_connect", ctx)
         for name, n_ in mult_late.items():
+            if name in multiplied:
+                continue
             insts[name] = n_ * insts[name]
             self.inst_objs[(k, name)] = insts[name]
         if style == "proc":
